@@ -14,7 +14,8 @@ EXPLANATION = (
 NOT_DECIDED = ("Equality of the reported descriptor sets with 'the sockets that matter' as a runtime set for every "
                "history; behaviour of user-supplied socket functions.")
 
-TECHNIQUE = "who-may-call census of socket slots + descriptor typestate (open/close/announce) by disjunctive forward dataflow over the clang CFG + must-pass-through ordering + sibling agreement of legacy enumerators"
+TECHNIQUE = ("who-may-call census of socket slots + descriptor typestate (open/close/announce) by disjunctive forward dataflow over the clang CFG + must-pass-through ordering + sibling agreement of legacy enumerators"
+             ", definition census of the connection chosen for a query, path search 'descriptor handed out or closed' in ares_socket_open")
 LEVEL_TEXT = ("static: decides the call-protocol clauses of C10 (owners, close order, open unwind typestate, announcement discipline, "
               "per-socket accounting, legacy enumerator agreement) on every CFG path, including OOM and failure unwinds the suite "
               "marks LCOV_EXCL; does not decide equality of reported descriptor sets over runtime histories")
